@@ -164,6 +164,8 @@ class IntWP:
         self.replace = replace or {}  # mangled -> (pre, post)
         self.depth = 0
         self.consts = {}
+        self.hints = None            # directory for the online queries of value_hint(), or None: no hints
+        self.hint_n = 0
 
     # ------------------------------------------------------------------ utilities
     def fresh(self, hint, sort='Int'):
@@ -241,7 +243,7 @@ class IntWP:
         return self.call_node(node, args, path)
 
     # ------------------------------------------------------------------ execution
-    def call_node(self, node, args, path):
+    def call_node(self, node, args, path, top_sites=None):
         self.depth += 1
         if self.depth > 40:
             raise Unsupported('call depth')
@@ -253,6 +255,8 @@ class IntWP:
             raise Unsupported('call to function without body: %s' % node.get('name'))
         fr = Frame()
         fr.ft = ft
+        if top_sites is not None:
+            fr.ret_sites = top_sites
         kind = node['kind']
         off = 0
         if kind in ('CXXMethodDecl', 'CXXConversionDecl') and node.get('storageClass') != 'static':
@@ -353,6 +357,8 @@ class IntWP:
             v = self.expr(e[0], fr, g) if e else None
             # branches are joined with ite at the enclosing if; inside a branch a return simply fires
             # unless an earlier return on the same straight-line path already did
+            if getattr(fr, 'ret_sites', None) is not None:
+                fr.ret_sites.append((g, v))
             if fr.returned == 'false' or fr.retval is None:
                 fr.retval = v
             elif v is not None:
@@ -415,8 +421,14 @@ class IntWP:
 
     def join(self, fr, cnd, a, b):
         out = {}
+        # a side that has definitely returned contributes nothing to the state the following statements see (they only run under
+        # `not returned`): take the other side's values instead of an ite over values that can never be observed
+        a_gone, b_gone = a['returned'] == 'true', b['returned'] == 'true'
         for k in set(a['vars']) | set(b['vars']):
             va, vb = a['vars'].get(k), b['vars'].get(k)
+            if a_gone != b_gone and va is not None and vb is not None and not isinstance(va, Ref) and not isinstance(vb, Ref):
+                out[k] = vb if a_gone else va
+                continue
             if isinstance(va, Ref) or isinstance(vb, Ref) or va is None or vb is None:
                 out[k] = va if va is not None else vb
             elif va is vb or va == vb:
@@ -425,7 +437,9 @@ class IntWP:
                 out[k] = self.merge(cnd, va, vb)
         fr.vars = out
         for (fa, na, va), (fb, nb, vb) in zip(a['outer'], b['outer']):
-            if va == vb:
+            if a_gone != b_gone:
+                fa.vars[na] = vb if a_gone else va
+            elif va == vb:
                 fa.vars[na] = va
             else:
                 fa.vars[na] = self.merge(cnd, va, vb)
@@ -899,8 +913,37 @@ class IntWP:
             self.oblige('clz-of-zero', path, '(not (= %s 0))' % v, '%s: %s(0)' % (self.where(n, fr), name))
             c = self.fresh('clz')
             self.assumes.append('(=> (and %s (> %s 0)) (and (<= 0 %s) (<= %s %d) (<= (pow2 (- %d %s)) %s) (< %s (pow2 (- %d %s)))))' % (path, v, c, c, B - 1, B - 1, c, v, v, B, c))
+            # the same fact once more as 2B linear implications (consequences of the line above, so nothing new is assumed): with
+            # bounds on v they fix c by propagation instead of a 64-way case split
+            hints = ' '.join('(=> (>= %s %d) (<= %s %d)) (=> (< %s %d) (>= %s %d))' % (v, 1 << k, c, B - 1 - k, v, 1 << (k + 1), c, B - 1 - k) for k in range(B))
+            self.assumes.append('(=> (and %s (> %s 0)) (and %s))' % (path, v, hints))
+            self.value_hint(c, path, '%s: %s' % (self.where(n, fr), name))
             return c
         raise Unsupported('builtin ' + name)
+
+    def value_hint(self, c, path, where):
+        """Solver-aided constant propagation (only when the unit asks for it).  If, under everything assumed so far and the current
+        path, the fresh constant c can take exactly one value k -- found from a model, then PROVED as the obligation `path => c == k` -- the
+        proved fact is added as an assumption for what follows.  Nothing unproved is assumed: the obligation is part of the unit and is
+        discharged again with all others.  (A slice selector in the precondition typically fixes clz results and hence shift distances;
+        non-linear solvers do much better with the literal.)"""
+        if not self.hints:
+            return
+        base = PRELUDE + '\n'.join(self.decls) + '\n' + '\n'.join('(assert %s)' % a for a in self.asserts) + '\n' + \
+            '\n'.join('(assert %s)' % a for a in self.assumes) + '\n(assert %s)\n' % path
+        self.hint_n += 1
+        st, _, _, out = solve_query(base + '(check-sat)\n(get-value (%s))\n' % c, 30, self.hints, 'hint%d_model' % self.hint_n)
+        if st != 'sat':
+            return
+        vals = parse_values(out)
+        if c not in vals:
+            return
+        k = lit(vals[c])
+        st, _, _, _ = solve_query(base + '(assert (not (= %s %s)))\n(check-sat)\n' % (c, k), 30, self.hints, 'hint%d_unique' % self.hint_n)
+        if st != 'unsat':
+            return
+        self.oblige('value-hint', path, '(= %s %s)' % (c, k), '%s == %s on this path (derived fact, used as a lemma below)' % (where, k))
+        self.assumes.append('(=> %s (= %s %s))' % (path, c, k))
 
     def apply_contract(self, mg, d, vals, path):
         pre, post = self.replace[mg]
@@ -955,7 +998,14 @@ SOLVERS = [
 ]
 
 
-def solve_query(text, timeout, workdir, tag):
+# second round for obligations the first round leaves undecided: non-linear queries are sensitive to the solver's random choices, so the
+# same query is handed to a portfolio of seeds/strategies (any `unsat`/`sat` answer is an answer about the same formula)
+RETRY_SOLVERS = [('z3-new/seed%d' % k, ['z3-new', '-smt2', 'smt.random_seed=%d' % k, 'sat.random_seed=%d' % k]) for k in (1, 2, 3, 4, 5)] + \
+    [('z3/seed%d' % k, ['z3', '-smt2', 'smt.random_seed=%d' % k]) for k in (1, 2)] + \
+    [('cvc5/tplanes-interleave', ['cvc5', '--lang', 'smt2', '--produce-models', '--nl-ext-tplanes', '--nl-ext-tplanes-interleave'])]
+
+
+def solve_query(text, timeout, workdir, tag, solvers=None):
     """portfolio, first definitive answer wins; returns (status, solver, seconds, model_text)"""
     os.makedirs(workdir, exist_ok=True)
     path = os.path.join(workdir, tag + '.smt2')
@@ -963,7 +1013,7 @@ def solve_query(text, timeout, workdir, tag):
         f.write(text)
     t0 = time.time()
     procs = []
-    for name, cmd in SOLVERS:
+    for name, cmd in (solvers or SOLVERS):
         if shutil.which(cmd[0]) is None:
             continue
         procs.append((name, subprocess.Popen(cmd + [path], stdout=subprocess.PIPE, stderr=subprocess.PIPE, text=True)))
@@ -1008,6 +1058,67 @@ def parse_values(out):
     return vals
 
 
+_VAR = re.compile(r'v\d+_\w+')
+
+
+def cone_of_influence(asserts, assumes, roots, always=(), relaxed=False):
+    """Query slicing.  Every element of `asserts` defines one fresh constant, `(= vN term)`: a definition whose constant the query does
+    not mention can be dropped without changing satisfiability.  Assumptions (preconditions, callee contracts, clz facts) may always be
+    dropped when PROVING (fewer hypotheses); one is kept iff every undefined constant it mentions, directly or through definitions (inputs, callee results, clz
+    results), already occurs in the slice -- e.g. the contract of a call on another path speaks about that call's result and is left out.
+    Iterated to a fixpoint.  Keeps the non-linear terms of paths the obligation is not about out of the solver's way.
+    `relaxed`: an assumption is also kept when it shares at least one such constant (other than an input) with the slice.
+    Dropping hypotheses can only turn `unsat` into `sat`, never the reverse: an `unsat` answer on a slice is a proof, a `sat` answer on a
+    slice means nothing and the caller moves on to the next larger query (aggressive -> relaxed -> everything)."""
+    defs = {}
+    for a in asserts:
+        m = re.match(r'^\(= (v\d+_\w+) ', a)
+        if m:
+            defs[m.group(1)] = a
+    cone = set()
+
+    def add(text):
+        todo = list(_VAR.findall(text))
+        while todo:
+            v = todo.pop()
+            if v in cone:
+                continue
+            cone.add(v)
+            if v in defs:
+                todo += _VAR.findall(defs[v])
+    def undefined_of(text):
+        # the undefined constants an assumption speaks about, directly or through definitions
+        seen, out, todo = set(), set(), list(_VAR.findall(text))
+        while todo:
+            v = todo.pop()
+            if v in seen:
+                continue
+            seen.add(v)
+            if v in defs:
+                todo += _VAR.findall(defs[v])
+            else:
+                out.add(v)
+        return out
+    for r in roots:
+        add(r)
+    for v in always:          # the inputs: the precondition speaks about all of them at once
+        add(v)
+    kept = [False] * len(assumes)
+    changed = True
+    while changed:
+        changed = False
+        for i, a in enumerate(assumes):
+            if kept[i]:
+                continue
+            und = undefined_of(a)
+            if all(v in cone for v in und) or (relaxed and any(v in cone and v not in always for v in und)):
+                kept[i] = True
+                add(a)
+                changed = True
+    return [a for a in asserts if not re.match(r'^\(= (v\d+_\w+) ', a) or re.match(r'^\(= (v\d+_\w+) ', a).group(1) in cone], \
+        [a for i, a in enumerate(assumes) if kept[i]]
+
+
 def solve_unit_int(unit, workdir, core, seed=0):
     """same result shape as core.solve_unit"""
     udir = os.path.join(workdir, re.sub(r'[^A-Za-z0-9_.-]', '_', unit.id))
@@ -1021,6 +1132,8 @@ def solve_unit_int(unit, workdir, core, seed=0):
         cn = ex.require_mangled(unit.fn)       # C printer run: resolves structs, must-fire rules, metadata
         f = ex.funcs[cn]
         wp = IntWP(ast, ex, replace={g: (gpre, gpost) for (g, gpre, gpost) in unit.replace})
+        if getattr(unit, 'split_returns', False):
+            wp.hints = os.path.join(udir, 'hints')
         node = ast.fn_def_by_mangled[unit.fn]
         inputs, in_names = [], []
         for i, (pname, t) in enumerate(f['params']):
@@ -1030,11 +1143,22 @@ def solve_unit_int(unit, workdir, core, seed=0):
             inputs.append(v)
             in_names.append((i, t, v))
         if unit.pre:
-            g = wp.call_by_mangled(unit.pre, list(inputs), 'true')
+            g = wp.call_by_mangled(unit.pre, list(inputs) + [lit(int(c)) for c in unit.pre_consts], 'true')
             wp.assumes.append(wp.as_bool(g))
         n_pre_obl = len(wp.obligations)
-        ret = wp.call_node(node, list(inputs), 'true')
-        if unit.lemma:
+        n_pre_assumes = len(wp.assumes)
+        sites = [] if getattr(unit, 'split_returns', False) else None
+        ret = wp.call_node(node, list(inputs), 'true', top_sites=sites)
+        if sites and unit.post and not unit.lemma:
+            # one postcondition obligation per return statement of the function under contract (path => post(value returned there));
+            # together they are the postcondition of the merged value, in smaller queries
+            parts = list(getattr(unit, 'post_split', ())) or [unit.post]      # conjuncts of unit.post, one obligation each
+            for k_, (g_, v_) in enumerate(sites):
+                for part in parts:
+                    pg = wp.call_by_mangled(part, list(inputs) + [v_], g_)
+                    wp.oblige('postcondition', g_, wp.as_bool(pg), 'ensures %s at return #%d' % (part, k_ + 1))
+            wp.oblige('postcondition', 'true', '(or %s)' % ' '.join(g_ for g_, _ in sites), 'the return statements cover every path')
+        elif unit.lemma:
             wp.oblige('postcondition', 'true', wp.as_bool(ret), 'lemma %s returns true' % f['name'])
         elif unit.post:
             g = wp.call_by_mangled(unit.post, list(inputs) + ([ret] if f['ret'].base != 'void' else []), 'true')
@@ -1062,16 +1186,54 @@ def solve_unit_int(unit, workdir, core, seed=0):
         counts[name] = counts.get(name, 0) + 1
         oid = '%s.%s.%d' % (cn, name, counts[name])
         # definitional equalities are harmless (each defines a fresh constant); assumptions are cut at program order
-        q = decls + '\n'.join('(assert %s)' % a for a in wp.asserts) + '\n' + '\n'.join('(assert %s)' % a for a in wp.assumes[:n_assumes]) + \
-            '\n(assert %s)\n(assert (not %s))\n(check-sat)\n(get-value (%s))\n' % (path, goal, ' '.join(getvals))
-        queries.append((oid, where, q))
-    queries.append(('%s.vf_canary' % cn, 'vf_canary: precondition and assumed contracts are satisfiable',
-                    base + '(check-sat)\n'))
+        def text(asserts_q, assumes_q, path=path, goal=goal):
+            return decls + '\n'.join('(assert %s)' % a for a in asserts_q) + '\n' + '\n'.join('(assert %s)' % a for a in assumes_q) + \
+                '\n(assert %s)\n(assert (not %s))\n(check-sat)\n(get-value (%s))\n' % (path, goal, ' '.join(getvals))
+        full = text(wp.asserts, wp.assumes[:n_assumes])
+        if getattr(unit, 'split_returns', False):
+            levels = [text(*cone_of_influence(wp.asserts, wp.assumes[:n_assumes], [path, goal], getvals)),
+                      text(*cone_of_influence(wp.asserts, wp.assumes[:n_assumes], [path, goal], getvals, relaxed=True)), full]
+            levels = [q_ for k_, q_ in enumerate(levels) if q_ not in levels[:k_]]
+        else:
+            levels = [full]
+        queries.append((oid, where, levels))
+    canary_q = base + '(check-sat)\n'
+    if getattr(unit, 'split_returns', False):
+        # non-linear satisfiability is the hard direction: first find inputs satisfying the precondition alone (linear), then ask for
+        # the rest (callee results ...) with the inputs fixed to that witness; fall back to the general query if that is not `sat`
+        pre_only = decls + '\n'.join('(assert %s)' % a for a in wp.asserts) + '\n' + '\n'.join('(assert %s)' % a for a in wp.assumes[:n_pre_assumes]) + \
+            '\n(check-sat)\n(get-value (%s))\n' % ' '.join(getvals)
+        st_, _, _, out_ = solve_query(pre_only, 60, udir, 'canary_inputs')
+        if st_ == 'sat':
+            vals_ = parse_values(out_)
+            fix = ''.join('(assert (= %s %s))\n' % (v_, lit(vals_[v_])) for v_ in getvals if v_ in vals_)
+            st2, _, _, _ = solve_query(base + fix + '(check-sat)\n', 60, udir, 'canary_witness')
+            if st2 == 'sat':
+                canary_q = base + fix + '(check-sat)\n'
+    queries.append(('%s.vf_canary' % cn, 'vf_canary: precondition and assumed contracts are satisfiable', [canary_q]))
 
     def one(item):
-        oid, where, q = item
-        with core._SEM:
-            return item, solve_query(q, unit.timeout, udir, re.sub(r'[^A-Za-z0-9_.-]', '_', oid)[-80:])
+        oid, where, levels = item
+        tag = re.sub(r'[^A-Za-z0-9_.-]', '_', oid)[-80:]
+        if not getattr(unit, 'split_returns', False):
+            with core._SEM:
+                return item, solve_query(levels[0], unit.timeout, udir, tag)
+        # sliced queries first; only `unsat` is final on a slice, only the complete query can report a counterexample
+        r = ('unknown', None, 0.0, '')
+        saw_sat = False
+        for k, q in enumerate(levels):
+            last = k == len(levels) - 1
+            with core._SEM:
+                r = solve_query(q, min(unit.timeout, 60), udir, '%s.l%d' % (tag, k))
+            # second round (seed portfolio): on the smallest slice always; on the complete query only when a slice answered `sat`
+            # (a counterexample is plausible and only the complete query can confirm it); total time per obligation stays bounded
+            if r[0] == 'unknown' and (k == 0 or (last and saw_sat)):
+                with core._SEM:
+                    r = solve_query(q, min(unit.timeout, 180), udir, '%s.l%d.retry' % (tag, k), solvers=RETRY_SOLVERS)
+            if r[0] == 'unsat' or (r[0] == 'sat' and last):
+                return item, r
+            saw_sat = saw_sat or r[0] == 'sat'
+        return item, ('unknown', None, r[2], '')
     with concurrent.futures.ThreadPoolExecutor(max_workers=core.NCPU) as tp:
         for (oid, where, q), (st, solver, dt, out) in tp.map(one, queries):
             if st == 'unknown':
